@@ -30,7 +30,8 @@ from txtorcon.endpoints import TorClientEndpoint, _create_socks_endpoint
 PROPERTY = 'C18'
 
 ENTRIES = ['9050', '127.0.0.1:9051', 'unix:/s', '9052 IsolateDestAddr', '9053 IPv6Traffic PreferIPv6', 'unix:/t WorldWritable',
-           'auto IsolateDestAddr', '[::1]:9060 IsolateSOCKSAuth']
+           'auto IsolateDestAddr', '[::1]:9060 IsolateSOCKSAuth', '905']
+DEFAULT_OPTS = '9050 IsolateDestAddr IsolateDestPort'      # a built-in default that carries option words
 
 
 def client_can_use(e):
@@ -41,7 +42,7 @@ ENTRY_POINTS = ['create', 'from_connection', 'tor_default', 'config_create']
 
 
 def existing_configs(tier):
-    out = [('unset', []), ('default', [])]
+    out = [('unset', []), ('default', []), ('default-opts', [])]
     nmax = 3
     for n in range(1, nmax + 1):
         for p in itertools.permutations(ENTRIES, n):
@@ -75,21 +76,25 @@ def run_choose(kind, entries, requested, entry_point):
     log = []
     with World() as w:
         if entry_point == 'config_create':
-            impl = CfgImpl(w, [('SocksPort', list(entries))])
-            proto, sim = impl.proto, impl.sim
             if kind == 'default':
                 return None
+            if kind == 'default-opts':
+                # SocksPort is at its default (GETCONF answers the bare keyword); config/defaults names the default line
+                impl = CfgImpl(w, [('SocksPort', [])], defaults={'SocksPort': [DEFAULT_OPTS]})
+            else:
+                impl = CfgImpl(w, [('SocksPort', list(entries))])
+            proto, sim = impl.proto, impl.sim
         else:
             proto, wire, sim = connected_protocol(w)
             sim.strict_conf = True
             sim.conf['SocksPort'] = list(entries)
             sim.conf_types['SocksPort'] = 'Dependent'
-            sim.conf['__SocksPort'] = ['9050'] if kind == 'default' else []
+            sim.conf['__SocksPort'] = ['9050'] if kind == 'default' else ([DEFAULT_OPTS] if kind == 'default-opts' else [])
             sim.conf_types['__SocksPort'] = 'Dependent'
             finish_bootstrap(proto)
         base = len(sim.commands)
         store_before = list(sim.conf['SocksPort'])
-        effective = list(entries) if entries else (['9050'] if kind == 'default' else [])
+        effective = list(entries) if entries else (['9050'] if kind == 'default' else ([DEFAULT_OPTS] if kind == 'default-opts' else []))
         w.reactor.next_port = 47000
         try:
             if entry_point == 'create':
@@ -120,6 +125,8 @@ def run_choose(kind, entries, requested, entry_point):
         feat = '%s/%s/%s' % (entry_point, feat_cfg, 'req-none' if requested is None else
                              ('req-present-line' if requested in effective and ' ' in requested else
                               ('req-present' if any(e.split()[0] == requested for e in effective) else 'req-absent')))
+        # (a requested line with the port of an existing entry but other option words is not in the alphabet: whether that is
+        # "the port Tor already has" is not settled by the property)
         usable = [e for e in effective if client_can_use(e) and (requested is None or requested in (e, e.split()[0]))]
         if len(rec.fires) != 1:
             viol.append(('result-fired-%d-times' % len(rec.fires), feat, 'existing %r requested %r' % (entries, requested)))
@@ -283,9 +290,12 @@ def run_task(param, acc):
     cfgs = existing_configs(acc.tier)[param[1]:param[2]]
     r = None
     for kind, entries in cfgs:
-        effective = entries or (['9050'] if kind == 'default' else [])
+        effective = entries or (['9050'] if kind == 'default' else ([DEFAULT_OPTS] if kind == 'default-opts' else []))
         reqs = [None] + sorted(set(e.split()[0] for e in effective if client_can_use(e))) + \
-            sorted(e for e in effective if ' ' in e and client_can_use(e)) + ['9999', '905']
+            sorted(e for e in effective if ' ' in e and client_can_use(e)) + ['9999', '905', '9050']
+        # requests that merely begin with (or are the beginning of) an existing entry are different ports
+        reqs += [e.split()[0] + '2' for e in effective if e.startswith('unix:')]
+        reqs = [r_ for i_, r_ in enumerate(reqs) if r_ not in reqs[:i_]]
         for requested in reqs:
             for ep in ENTRY_POINTS:
                 r2 = run_choose(kind, entries, requested, ep)
